@@ -559,6 +559,12 @@ func origins(v ssa.Value) []ssa.Value {
 						return
 					}
 				}
+				if fa, ok := x.X.(*ssa.FieldAddr); ok {
+					if sv := singleStoreField(fa); sv != nil {
+						walk(sv)
+						return
+					}
+				}
 			}
 		}
 		out = append(out, v)
@@ -830,4 +836,80 @@ func origin1local(v ssa.Value) ssa.Value {
 		return o[0]
 	}
 	return nil
+}
+
+// singleStoreField: fa addresses field f of a local struct (an Alloc of this function) that is assigned exactly
+// once in this function and never assigned by any other function of the program's module packages: loads of
+// that field all yield the stored value.
+func singleStoreField(fa *ssa.FieldAddr) ssa.Value {
+	base, ok := fa.X.(*ssa.Alloc)
+	if !ok {
+		return nil
+	}
+	fn := base.Parent()
+	var val ssa.Value
+	n := 0
+	for _, ref := range refs(base) {
+		f2, ok := ref.(*ssa.FieldAddr)
+		if !ok || f2.Field != fa.Field {
+			continue
+		}
+		for _, r2 := range refs(f2) {
+			if st, ok := r2.(*ssa.Store); ok && st.Addr == ssa.Value(f2) {
+				n++
+				val = st.Val
+			}
+		}
+	}
+	if n != 1 {
+		return nil
+	}
+	// no other function stores to this field of this struct type
+	st := base.Type().Underlying().(*types.Pointer).Elem()
+	if fn.Pkg == nil {
+		return nil
+	}
+	for _, m := range fn.Pkg.Members {
+		collect := func(g *ssa.Function) bool {
+			bad := false
+			var visit func(h *ssa.Function)
+			visit = func(h *ssa.Function) {
+				if h == nil || h == fn || h.Blocks == nil {
+					return
+				}
+				eachInstr(h, func(_ *ssa.BasicBlock, _ int, ins ssa.Instruction) {
+					s2, ok := ins.(*ssa.Store)
+					if !ok {
+						return
+					}
+					f3, ok := s2.Addr.(*ssa.FieldAddr)
+					if !ok || f3.Field != fa.Field {
+						return
+					}
+					if pt, ok := f3.X.Type().Underlying().(*types.Pointer); ok && types.Identical(pt.Elem(), st) {
+						bad = true
+					}
+				})
+				for _, af := range h.AnonFuncs {
+					visit(af)
+				}
+			}
+			visit(g)
+			return bad
+		}
+		switch x := m.(type) {
+		case *ssa.Function:
+			if collect(x) {
+				return nil
+			}
+		case *ssa.Type:
+			ms := fn.Prog.MethodSets.MethodSet(types.NewPointer(x.Type()))
+			for i := 0; i < ms.Len(); i++ {
+				if collect(fn.Prog.MethodValue(ms.At(i))) {
+					return nil
+				}
+			}
+		}
+	}
+	return val
 }
